@@ -771,6 +771,27 @@ pub mod vx_export {
         Ok(bad)
     }
 
+    // ---- C19 (malformed input is rejected cleanly): counters at u64::MAX in attacker-supplied proofs. A panic is not a rejection.
+    /// which = 0: a history proof whose second entry claims version u64::MAX, handed to key_history_verify;
+    /// which = 1: an append-only proof whose epoch list holds u64::MAX, handed to audit_verify. Returns "ok", "err" or "panic".
+    pub fn c19_counter_at_max<TC: Configuration>(which: u8) -> String {
+        let dummy_mp = || crate::MembershipProof { label: lbl(1), hash_val: AzksValue([0u8; 32]), sibling_proofs: vec![] };
+        let up = |version: u64| UpdateProof { epoch: 1, value: AkdValue(vec![1]), version, existence_vrf_proof: vec![0u8; 80], existence_proof: dummy_mp(),
+            previous_version_vrf_proof: None, previous_version_proof: None, commitment_nonce: vec![] };
+        let r = std::panic::catch_unwind(|| {
+            if which == 0 {
+                let proof = HistoryProof { update_proofs: vec![up(5), up(u64::MAX)], past_marker_vrf_proofs: vec![], existence_of_past_marker_proofs: vec![],
+                    future_marker_vrf_proofs: vec![], non_existence_of_future_marker_proofs: vec![] };
+                key_history_verify::<TC>(&[0u8; 32], [0u8; 32], 10, AkdLabel::from("a"), proof, HistoryVerificationParams::default()).is_ok()
+            } else {
+                let proof = crate::AppendOnlyProof { proofs: vec![SingleAppendOnlyProof { inserted: vec![], unchanged_nodes: vec![] }], epochs: vec![u64::MAX] };
+                let rt = tokio::runtime::Builder::new_current_thread().enable_all().build().unwrap();
+                rt.block_on(crate::auditor::audit_verify::<TC>(vec![[0u8; 32], [0u8; 32]], proof)).is_ok()
+            }
+        });
+        match r { Ok(true) => "ok".to_string(), Ok(false) => "err".to_string(), Err(_) => "panic".to_string() }
+    }
+
     // ---- C13: a request racing a publish (deterministic: the database wrapper runs a publish of ANOTHER directory instance over the
     // same database at a chosen read of the request)
     #[derive(Clone)]
